@@ -3,6 +3,7 @@ package rag
 import (
 	"fmt"
 	"strings"
+	"unicode/utf8"
 )
 
 // SizeUnit defines the unit of measurement for chunk sizes
@@ -496,7 +497,61 @@ func findWordBoundaryNear(text string, targetPos int) int {
 		}
 	}
 
-	return targetPos
+	return runeBoundaryNear(text, targetPos)
+}
+
+// runeBoundaryNear returns the closest position at or before pos that does not
+// cut a multi-byte character; if that is the start of the text, the end of the
+// first character is returned instead so that a split there still makes progress
+func runeBoundaryNear(text string, pos int) int {
+	if pos <= 0 || pos >= len(text) {
+		return pos
+	}
+	p := pos
+	for p > 0 && !utf8.RuneStart(text[p]) {
+		p--
+	}
+	if p > 0 {
+		return p
+	}
+	p = pos
+	for p < len(text) && !utf8.RuneStart(text[p]) {
+		p++
+	}
+	return p
+}
+
+// hardMaxBytes returns the byte length a piece may have under a hard maximum
+// given in characters or tokens (0 when no such bound applies)
+func (sc *SizeCalculator) hardMaxBytes() int {
+	if sc.config.Max.Type != LimitTypeHard {
+		return 0
+	}
+	switch sc.config.Max.Unit {
+	case SizeUnitCharacters:
+		return sc.config.Max.Value
+	case SizeUnitTokens:
+		ratio := sc.config.TokensPerChar
+		if ratio <= 0 {
+			ratio = 0.25
+		}
+		return int(float64(sc.config.Max.Value) / ratio)
+	}
+	return 0
+}
+
+// splitPointWithin returns the last word break at or before maxLen, or a
+// character boundary there when the text offers no break
+func splitPointWithin(text string, maxLen int) int {
+	if maxLen >= len(text) {
+		maxLen = len(text) - 1
+	}
+	for i := maxLen; i > 0; i-- {
+		if text[i] == ' ' || text[i] == '\n' {
+			return i
+		}
+	}
+	return runeBoundaryNear(text, maxLen)
 }
 
 // isSentenceEndChar checks if a character typically ends a sentence
@@ -518,6 +573,19 @@ func (sc *SizeCalculator) SplitToSize(text string, boundaries []Boundary) []stri
 
 		// Find split point using max limit (not target) to ensure chunks fit
 		splitPos := sc.FindSplitPointAt(remaining, boundaries, sc.config.Max.Value, sc.config.Max.Unit)
+
+		// The boundary, sentence and word searches also look past the limit: under
+		// a hard maximum the piece itself must fit
+		if maxLen := sc.hardMaxBytes(); maxLen > 0 {
+			piece := remaining
+			if splitPos > 0 && splitPos < len(remaining) {
+				piece = remaining[:splitPos]
+			}
+			if len(strings.TrimSpace(piece)) > maxLen {
+				splitPos = splitPointWithin(remaining, maxLen)
+			}
+		}
+
 		if splitPos <= 0 || splitPos >= len(remaining) {
 			// Can't split further, add remaining as-is
 			chunks = append(chunks, remaining)
